@@ -175,7 +175,8 @@ void pl_C03_after(void)
   civil_lookup cl = MakeTime(z, cs);
   __CPROVER_assert(C03_OK(cl, t), "C03: recovered (at or after the last row)");
 }
-/* reachability probes (run by hand): their assertions must FAIL, otherwise the scenario assumptions would be contradictory */
+/* reachability probes (goals marked probe=True in units/props.py, run with every C03 check): their assertions must FAIL,
+ * otherwise the scenario assumptions would be contradictory */
 void pl_C03_probe_a(void)
 {
   TimeZoneInfo* z = c03_zone();
